@@ -268,9 +268,10 @@ class NestedFunc:
 class NDArr:
     """small dense array of scalar values, concrete shape (nested lists)."""
 
-    def __init__(self, data):
+    def __init__(self, data, shape=None):
         self.data = data
         self.stamp = _stamp()
+        self._shape = tuple(shape) if shape is not None else None      # only needed for arrays without elements
 
     @property
     def shape(self):
@@ -279,7 +280,10 @@ class NDArr:
         while isinstance(d, list):
             s.append(len(d))
             d = d[0] if d else None
-        return tuple(s)
+        s = tuple(s)
+        if self._shape is not None and 0 in s and len(self._shape) >= len(s) and self._shape[:len(s)] == s:
+            return self._shape            # an empty selection keeps its trailing axes ((0, 2), not (0,))
+        return s
 
     def __repr__(self):
         return 'NDArr(%r)' % (self.data,)
@@ -2018,6 +2022,19 @@ class Engine:
             return self.neg(v)
         if isinstance(e.op, ast.UAdd):
             return v
+        if isinstance(e.op, ast.Invert):
+            def inv(x):
+                if isinstance(x, bool) or (isinstance(x, SV) and x.kind == 'bool'):
+                    return b_not(x)          # ~ on a numpy bool (array): logical not
+                if isinstance(x, int):
+                    return ~x
+                raise EngineError('~ of a symbolic non-boolean value')
+            if isinstance(v, NDArr):
+                # (a plain Python bool would give -2 for ~True; arrays of bools are numpy bool arrays here)
+                return NDArr(mapnd(inv, v.data))
+            if isinstance(v, bool):
+                return ~v
+            return inv(v)
         raise EngineError('unary op')
 
     def neg(self, v):
@@ -2385,6 +2402,9 @@ class Engine:
                 self.pc.append(z3.And(t >= 1, z3.Implies(term(b) == 0, t == 1), f(term(b) + 1) == 2 * t))
                 return SV(t, 'int')
             raise EngineError('shift of symbolic values')
+        if isinstance(op, (ast.BitAnd, ast.BitOr)) and all(isinstance(x, bool) or (isinstance(x, SV) and x.kind == 'bool') for x in (a, b)):
+            # numpy bool arrays / Python bools: & and | are the logical operations
+            return b_and(a, b) if isinstance(op, ast.BitAnd) else b_or(a, b)
         if isinstance(op, ast.BitAnd):
             if not isinstance(a, SV) and not isinstance(b, SV):
                 return a & b
@@ -2936,7 +2956,7 @@ def nd_from_obj(o):
         if a.ndim == 1:
             return [a[k] for k in range(a.shape[0])]
         return [tolist(a[k]) for k in range(a.shape[0])]
-    return NDArr(tolist(o))
+    return NDArr(tolist(o), shape=o.shape if o.size == 0 else None)
 
 
 def flat(d):
